@@ -323,8 +323,108 @@ fn binop_name(o: expr::BinaryOperator) -> &'static str {
   }
 }
 
+fn build_targs(heap: &mut Heap, v: &Value) -> Option<annotation::TypeArguments> {
+  if v.is_null() {
+    return None;
+  }
+  Some(annotation::TypeArguments {
+    location: Location::dummy(),
+    start_associated_comments: NO_COMMENT_REFERENCE,
+    ending_associated_comments: NO_COMMENT_REFERENCE,
+    arguments: v.as_array().unwrap().iter().map(|a| build_annot(heap, a)).collect(),
+  })
+}
+
+/// ["prim", k] | ["tid", _, name, targs|null] | ["tgen", name] | ["tfn", [params], ret]
+pub fn build_annot(heap: &mut Heap, v: &Value) -> annotation::T {
+  match v[0].as_str().unwrap() {
+    "prim" => annotation::T::Primitive(
+      Location::dummy(),
+      NO_COMMENT_REFERENCE,
+      match v[1].as_str().unwrap() {
+        "unit" => annotation::PrimitiveTypeKind::Unit,
+        "bool" => annotation::PrimitiveTypeKind::Bool,
+        "int" => annotation::PrimitiveTypeKind::Int,
+        k => panic!("primitive kind {k}"),
+      },
+    ),
+    "tid" => annotation::T::Id(annotation::Id {
+      location: Location::dummy(),
+      module_reference: ModuleReference::DUMMY,
+      id: mk_id(heap, v[2].as_str().unwrap()),
+      type_arguments: build_targs(heap, &v[3]),
+    }),
+    "tgen" => annotation::T::Generic(Location::dummy(), mk_id(heap, v[1].as_str().unwrap())),
+    "tfn" => annotation::T::Fn(annotation::Function {
+      location: Location::dummy(),
+      associated_comments: NO_COMMENT_REFERENCE,
+      parameters: annotation::ParenthesizedAnnotationList {
+        location: Location::dummy(),
+        start_associated_comments: NO_COMMENT_REFERENCE,
+        ending_associated_comments: NO_COMMENT_REFERENCE,
+        annotations: v[1].as_array().unwrap().iter().map(|a| build_annot(heap, a)).collect(),
+      },
+      return_type: Box::new(build_annot(heap, &v[2])),
+    }),
+    k => panic!("annotation kind {k}"),
+  }
+}
+
+fn build_tuple_pat(heap: &mut Heap, v: &Value) -> pattern::TuplePattern<()> {
+  pattern::TuplePattern {
+    location: Location::dummy(),
+    start_associated_comments: NO_COMMENT_REFERENCE,
+    ending_associated_comments: NO_COMMENT_REFERENCE,
+    elements: v
+      .as_array()
+      .unwrap()
+      .iter()
+      .map(|p| pattern::TuplePatternElement { pattern: Box::new(build_pat(heap, p)), type_: () })
+      .collect(),
+  }
+}
+
+/// ["ptuple", [..]] | ["pobj", [[field, shorthand, pat]..]] | ["pvar", tag, null|[..]] | ["pid", x] | ["pwild"] | ["por", [..]]
+pub fn build_pat(heap: &mut Heap, v: &Value) -> pattern::MatchingPattern<()> {
+  match v[0].as_str().unwrap() {
+    "ptuple" => pattern::MatchingPattern::Tuple(build_tuple_pat(heap, &v[1])),
+    "pobj" => pattern::MatchingPattern::Object {
+      location: Location::dummy(),
+      start_associated_comments: NO_COMMENT_REFERENCE,
+      ending_associated_comments: NO_COMMENT_REFERENCE,
+      elements: v[1]
+        .as_array()
+        .unwrap()
+        .iter()
+        .map(|e| pattern::ObjectPatternElement {
+          loc: Location::dummy(),
+          field_order: 0,
+          field_name: mk_id(heap, e[0].as_str().unwrap()),
+          pattern: Box::new(build_pat(heap, &e[2])),
+          shorthand: e[1].as_bool().unwrap(),
+          type_: (),
+        })
+        .collect(),
+    },
+    "pvar" => pattern::MatchingPattern::Variant(pattern::VariantPattern {
+      loc: Location::dummy(),
+      tag_order: 0,
+      tag: mk_id(heap, v[1].as_str().unwrap()),
+      data_variables: if v[2].is_null() { None } else { Some(build_tuple_pat(heap, &v[2])) },
+      type_: (),
+    }),
+    "pid" => pattern::MatchingPattern::Id(mk_id(heap, v[1].as_str().unwrap()), ()),
+    "pwild" => pattern::MatchingPattern::Wildcard { location: Location::dummy(), associated_comments: NO_COMMENT_REFERENCE },
+    "por" => pattern::MatchingPattern::Or {
+      location: Location::dummy(),
+      patterns: v[1].as_array().unwrap().iter().map(|p| build_pat(heap, p)).collect(),
+    },
+    k => panic!("pattern kind {k}"),
+  }
+}
+
 fn build_block(heap: &mut Heap, v: &Value) -> expr::Block<()> {
-  // ["block", [stmts], e|null] ; only expression statements and `let x = e` are built
+  // ["block", [stmts], e|null]
   let stmts = v[1]
     .as_array()
     .unwrap()
@@ -334,8 +434,8 @@ fn build_block(heap: &mut Heap, v: &Value) -> expr::Block<()> {
       "let" => expr::Statement::Declaration(Box::new(expr::DeclarationStatement {
         loc: Location::dummy(),
         associated_comments: NO_COMMENT_REFERENCE,
-        pattern: pattern::MatchingPattern::Id(mk_id(heap, s[1][1].as_str().unwrap()), ()),
-        annotation: None,
+        pattern: build_pat(heap, &s[1]),
+        annotation: if s[2].is_null() { None } else { Some(build_annot(heap, &s[2])) },
         assigned_expression: Box::new(build_expr(heap, &s[3])),
       })),
       k => panic!("statement kind {k}"),
@@ -352,6 +452,7 @@ fn build_block(heap: &mut Heap, v: &Value) -> expr::Block<()> {
 fn build_if(heap: &mut Heap, v: &Value) -> expr::IfElse<()> {
   let cond = match v[1][0].as_str().unwrap() {
     "e" => expr::IfElseCondition::Expression(build_expr(heap, &v[1][1])),
+    "guard" => expr::IfElseCondition::Guard(build_pat(heap, &v[1][1]), build_expr(heap, &v[1][2])),
     k => panic!("condition kind {k}"),
   };
   let e2 = if v[3][0] == "if" {
@@ -367,6 +468,10 @@ pub fn build_expr(heap: &mut Heap, v: &Value) -> expr::E<()> {
     "int" => expr::E::Literal(common(), Literal::Int(v[1].as_i64().unwrap() as i32)),
     "bool" => expr::E::Literal(common(), Literal::Bool(v[1].as_bool().unwrap())),
     "str" => expr::E::Literal(common(), Literal::String(heap.alloc_string(v[1].as_str().unwrap().to_string()))),
+    "id" if v[1] == "this" => expr::E::LocalId(
+      common(),
+      Id { loc: Location::dummy(), associated_comments: NO_COMMENT_REFERENCE, name: PStr::THIS },
+    ),
     "id" => expr::E::LocalId(common(), mk_id(heap, v[1].as_str().unwrap())),
     "cid" => expr::E::ClassId(common(), ModuleReference::DUMMY, mk_id(heap, v[2].as_str().unwrap())),
     "tuple" => expr::E::Tuple(
@@ -380,7 +485,7 @@ pub fn build_expr(heap: &mut Heap, v: &Value) -> expr::E<()> {
     ),
     "field" => expr::E::FieldAccess(expr::FieldAccess {
       common: common(),
-      explicit_type_arguments: None,
+      explicit_type_arguments: build_targs(heap, &v[3]),
       inferred_type_arguments: Vec::new(),
       object: Box::new(build_expr(heap, &v[1])),
       field_name: mk_id(heap, v[2].as_str().unwrap()),
@@ -388,7 +493,7 @@ pub fn build_expr(heap: &mut Heap, v: &Value) -> expr::E<()> {
     }),
     "method" => expr::E::MethodAccess(expr::MethodAccess {
       common: common(),
-      explicit_type_arguments: None,
+      explicit_type_arguments: build_targs(heap, &v[3]),
       inferred_type_arguments: Vec::new(),
       object: Box::new(build_expr(heap, &v[1])),
       method_name: mk_id(heap, v[2].as_str().unwrap()),
@@ -423,21 +528,11 @@ pub fn build_expr(heap: &mut Heap, v: &Value) -> expr::E<()> {
         .as_array()
         .unwrap()
         .iter()
-        .map(|c| {
-          // pattern: ["pvar", Name, null] only
-          let tag = mk_id(heap, c[0][1].as_str().unwrap());
-          expr::VariantPatternToExpression {
-            loc: Location::dummy(),
-            pattern: pattern::MatchingPattern::Variant(pattern::VariantPattern {
-              loc: Location::dummy(),
-              tag_order: 0,
-              tag,
-              data_variables: None,
-              type_: (),
-            }),
-            body: Box::new(build_expr(heap, &c[1])),
-            ending_associated_comments: NO_COMMENT_REFERENCE,
-          }
+        .map(|c| expr::VariantPatternToExpression {
+          loc: Location::dummy(),
+          pattern: build_pat(heap, &c[0]),
+          body: Box::new(build_expr(heap, &c[1])),
+          ending_associated_comments: NO_COMMENT_REFERENCE,
         })
         .collect(),
     }),
@@ -449,7 +544,11 @@ pub fn build_expr(heap: &mut Heap, v: &Value) -> expr::E<()> {
           .as_array()
           .unwrap()
           .iter()
-          .map(|p| source::OptionallyAnnotatedId { name: mk_id(heap, p[0].as_str().unwrap()), type_: (), annotation: None })
+          .map(|p| source::OptionallyAnnotatedId {
+            name: mk_id(heap, p[0].as_str().unwrap()),
+            type_: (),
+            annotation: if p[1].is_null() { None } else { Some(build_annot(heap, &p[1])) },
+          })
           .collect(),
         ending_associated_comments: NO_COMMENT_REFERENCE,
       },
@@ -560,10 +659,15 @@ const WRAP_POST: &str = " }";
 
 /// parse `text` as the body of a member (so that trailing tokens are syntax errors)
 fn parse_wrapped(text: &str) -> Value {
+  parse_wrapped_tparams(text, "")
+}
+
+/// the same with `tparams` (e.g. "<C7, C8> ") as the member's type parameters
+fn parse_wrapped_tparams(text: &str, tparams: &str) -> Value {
   let r = catch_unwind(AssertUnwindSafe(|| {
     let mut heap = Heap::new();
     let mut es = ErrorSet::new();
-    let src = format!("{WRAP_PRE}{text}{WRAP_POST}");
+    let src = format!("class Main {{ function {tparams}main(): unit = {text}{WRAP_POST}");
     let m = samlang_parser::parse_source_module_from_text(&src, ModuleReference::DUMMY, &mut heap, &mut es);
     let n = es.errors().len();
     let tree = match m.toplevels.first() {
@@ -593,7 +697,8 @@ fn run_expr(job: &Value) -> Value {
       Ok(text) => {
         let (toks, lex_errors) = lex_tokens(&text);
         outs.push(json!({"width": w, "text": text, "lex_errors": lex_errors,
-          "tokens": toks.iter().map(|(k, s)| json!([k, s])).collect::<Vec<_>>(), "reparse": parse_wrapped(&text)}));
+          "tokens": toks.iter().map(|(k, s)| json!([k, s])).collect::<Vec<_>>(),
+          "reparse": parse_wrapped_tparams(&text, job["tparams"].as_str().unwrap_or(""))}));
       }
       Err(e) => outs.push(json!({"width": w, "panic": panic_msg(e)})),
     }
@@ -1258,8 +1363,13 @@ pub fn main(args: &[String]) {
       "doc" => run_doc(&job),
       "expr" => run_expr(&job),
       "parse-expr" => {
-        let mut v = parse_wrapped(job["text"].as_str().unwrap());
+        let mut v = parse_wrapped_tparams(job["text"].as_str().unwrap(), job["tparams"].as_str().unwrap_or(""));
         v["id"] = job["id"].clone();
+        if job["tokens"].as_bool().unwrap_or(false) {
+          let (toks, le) = lex_tokens(job["text"].as_str().unwrap());
+          v["tokens"] = json!(toks.iter().map(|(k, s)| json!([k, s])).collect::<Vec<_>>());
+          v["lex_errors"] = json!(le);
+        }
         v
       }
       "lit" => run_lit(&job),
